@@ -146,7 +146,7 @@ class Run:
         with open(path, "w") as f:
             json.dump(case, f, indent=1, default=str)
         ndup = sum(1 for v in self.violations + self.known_hits if v["finding_key"] == finding_key)
-        if replay and ndup >= 3:
+        if replay and (ndup >= 3 or len(self.violations) >= 8):
             # the same finding was already replayed and confirmed three times on other structures
             self.obligations[key] = "violated-duplicate"
             self.extra["duplicates_not_replayed"] = self.extra.get("duplicates_not_replayed", 0) + 1
